@@ -27,11 +27,13 @@ static int wait_for_reclaimer[MAX_SCRIPT_THREADS];
  * purpose). Function index = thread * 8 + k; k == 3 lives at an odd address,
  * k == 4 reclaims its argument.
  */
+/* the bodies take a little while (yield points), so that "has run" and "has been started" differ */
+#define BODY(T, k, n) do { int j_; orc_defer_invoked(T * 8 + k, p); for (j_ = 0; j_ < n; j_++) usim_pause(); orc_defer_finished(T * 8 + k, p); } while (0)
 #define THREAD_FNS(T)								\
-static void fn##T##_0(void *p) { orc_defer_invoked(T * 8 + 0, p); }		\
-static void fn##T##_1(void *p) { orc_defer_invoked(T * 8 + 1, p); }		\
-static void fn##T##_2(void *p) { orc_defer_invoked(T * 8 + 2, p); }		\
-void usim_fn_odd_target##T(void *p) { orc_defer_invoked(T * 8 + 3, p); }	\
+static void fn##T##_0(void *p) { BODY(T, 0, 0); }				\
+static void fn##T##_1(void *p) { BODY(T, 1, 2); }				\
+static void fn##T##_2(void *p) { BODY(T, 2, 1); }				\
+void usim_fn_odd_target##T(void *p) { BODY(T, 3, 1); }				\
 extern void usim_odd_fn##T(void *p);						\
 __asm__(".text\n"								\
 	".balign 16\n"								\
@@ -41,7 +43,7 @@ __asm__(".text\n"								\
 	"usim_odd_fn" #T ":\n"							\
 	"\tjmp usim_fn_odd_target" #T "\n"					\
 	".size usim_odd_fn" #T ", .-usim_odd_fn" #T "\n");			\
-static void fn##T##_4(void *p) { orc_defer_invoked(T * 8 + 4, p); free(p); }
+static void fn##T##_4(void *p) { orc_defer_invoked(T * 8 + 4, p); free(p); orc_defer_finished(T * 8 + 4, p); }
 
 THREAD_FNS(0)
 THREAD_FNS(1)
